@@ -150,7 +150,7 @@ def handle (line : String) : String :=
         let vs := showRes "F" v
         let vres := if rs == vs then "ok" else s!"DIFF ref[{rs}] vm[{vs}]"
         let wres := vs ++ (if nt != 0 || ni != 0 then s!" LEAK={nt},{ni}" else "")
-        let sres := if stage1 p then (if (compileS p).toArray == compileProgram p then "S1=" else "S1-DIFF") else "-"
+        let sres := if stage1 p then (if sameCode p then "S1=" else "S1-DIFF") else "-"
         b ++ " ## " ++ vres ++ " ## " ++ wres ++ " ## " ++ showCode (compileProgram p) ++ " ## " ++ sres
       else b
     | none => "PARSE-ERROR"
